@@ -35,6 +35,8 @@ def same_value(a, b):
     """two projected values denote the same value (the type of carrier may differ: 1 vs 1.0 is not a difference)"""
     if a == b:
         return True
+    if a.get('t') == 'date' and b.get('t') == 'date':
+        return False              # a date-time is restored exactly (to the microsecond), not approximately
     r = agrees(a, b)
     return bool(r) and bool(agrees(b, a))
 
